@@ -66,6 +66,7 @@ def harness(ctx):
 
 # --------------------------------------------------------------------------------------------- generator
 def gen_history(rng, space=False, wrap=False):
+    """space: include resource 5, the root resource (empty Uri-Path)"""
     f = rng.choice([1, 1, 2, 2, 3, 4, 5, 7, 10, 10, rng.randint(1, 10)])
     nres = rng.choice([1, 2, 2, 3])
     pool = rng.sample(range(5), nres)
@@ -116,7 +117,7 @@ def generate(ctx, escalate=False):
         n *= 2
     out = []
     for k in range(n):
-        out.append(gen_history(rng, space=(k % 40 == 39), wrap=(k % 10 == 3)))
+        out.append(gen_history(rng, space=(k % 8 == 7), wrap=(k % 10 == 3)))
     return out
 
 
